@@ -6,7 +6,8 @@ use crate::ensure;
 use crate::gen;
 use proptest::prelude::*;
 use serde::{Deserialize, Serialize};
-use text_utils::tokenization::{BPETokenizer, BPETokenizerConfig, Tokenize};
+use text_utils::tokenization::{train_bpe, BPETokenizer, BPETokenizerConfig, Tokenize};
+use text_utils::utils::SerializeMsgPack;
 
 #[derive(Debug, Clone, Serialize, Deserialize)]
 pub struct Case {
@@ -15,6 +16,9 @@ pub struct Case {
     pub max_vocab: Option<usize>,
     pub graphemes: bool,
     pub special: SpecialCfg,
+    /// when set: (corpus lines, requested merges) — the table is produced by train_bpe
+    #[serde(default)]
+    pub trained: Option<(Vec<String>, usize)>,
 }
 
 pub struct C02;
@@ -27,8 +31,8 @@ impl Prop for C02 {
     fn fuzz_decode(bytes: &[u8]) -> Option<Case> {
         crate::fuzzdec::c02(bytes)
     }
-    const RULE: &'static str = "random well-formed merge tables (<= 48 merges) x texts mixing words over the table alphabet with arbitrary Unicode fragments, whitespace runs of all White_Space code points, leading/trailing whitespace x max_vocab_size x special configs with prefix/suffix x use_graphemes; oracle: decode(encode(s)) is a prefix of s whose remainder is whitespace only (equal if s has no trailing whitespace), ids < vocab_size, prefix/suffix ids frame the output, concatenated table byte strings are valid UTF-8 and equal the decoded text. Non-trivial: some emitted id >= 256 and (inner whitespace run >= 2 characters, trailing whitespace, or a multi-byte character split across tokens). Distinct = distinct serialised case.";
-    const ESSENTIAL: &'static [&'static str] = &["merged_id", "trailing_ws", "multibyte_split", "prefix_suffix"];
+    const RULE: &'static str = "random well-formed merge tables (<= 48 merges, occasionally 160) and tables produced by train_bpe on generated corpora (1-40 merges requested) x texts mixing words over the table alphabet with arbitrary Unicode fragments, whitespace runs of all White_Space code points, leading/trailing whitespace x max_vocab_size x special configs with prefix/suffix x use_graphemes; oracle: decode(encode(s)) is a prefix of s whose remainder is whitespace only (equal if s has no trailing whitespace), ids < vocab_size, prefix/suffix ids frame the output, concatenated table byte strings are valid UTF-8 and equal the decoded text. Non-trivial: some emitted id >= 256 and (inner whitespace run >= 2 characters, trailing whitespace, or a multi-byte character split across tokens). Distinct = distinct serialised case.";
+    const ESSENTIAL: &'static [&'static str] = &["merged_id", "trailing_ws", "multibyte_split", "prefix_suffix", "trained_table"];
 
     fn budget(tier: Tier) -> Budget {
         match tier {
@@ -38,7 +42,47 @@ impl Prop for C02 {
     }
 
     fn strategy(_tier: Tier, _shard: u32) -> BoxedStrategy<Case> {
-        (prop_oneof![12 => table_strategy(48), 1 => table_strategy(160)], special_cfg())
+        // tables produced by train_bpe on a generated corpus (rich enough not to be exhausted
+        // for small requests, exhausted for large ones)
+        let trained = (
+            proptest::sample::select(ALPHABETS),
+            proptest::collection::vec((any::<u16>(), 1usize..=6), 4..=40),
+            1usize..=40,
+            any::<bool>(),
+            special_cfg(),
+        )
+            .prop_flat_map(|(alpha, picks, requested, graphemes, special)| {
+                let letters: Vec<String> = alpha.iter().map(|s| s.to_string()).collect();
+                let mut words: Vec<String> = vec![];
+                for (i, (r, len)) in picks.iter().enumerate() {
+                    let mut w = String::new();
+                    for k in 0..*len {
+                        let j = ((*r as usize) >> (k * 2)).wrapping_add(i * k) % letters.len();
+                        w.push_str(&letters[j]);
+                    }
+                    words.push(w);
+                }
+                let lines: Vec<String> = words.chunks(4).map(|c| c.join(" ")).collect();
+                let pieces: Vec<String> = letters.iter().cloned().chain(words.iter().cloned()).collect();
+                let text = proptest::collection::vec(
+                    prop_oneof![
+                        6 => proptest::sample::select(pieces),
+                        2 => gen::ws_run(1, 2),
+                        2 => gen::frag(),
+                    ],
+                    0..=10,
+                )
+                .prop_map(|v| v.concat());
+                text.prop_map(move |text| Case {
+                    table: Table { entries: vec![] },
+                    text,
+                    max_vocab: None,
+                    graphemes,
+                    special: special.clone(),
+                    trained: Some((lines.clone(), requested)),
+                })
+            });
+        let random = (prop_oneof![12 => table_strategy(48), 1 => table_strategy(160)], special_cfg())
             .prop_flat_map(|((letters, table), special)| {
                 let n = table.entries.len();
                 let t1 = table_text(letters.clone(), table.clone(), 6);
@@ -55,9 +99,10 @@ impl Prop for C02 {
                         max_vocab,
                         graphemes,
                         special: special.clone(),
+                        trained: None,
                     })
-            })
-            .boxed()
+            });
+        prop_oneof![6 => random, 1 => trained].boxed()
     }
 
     fn assumptions() -> Vec<String> {
@@ -70,6 +115,44 @@ impl Prop for C02 {
 
     fn check(c: &Case, _strict: bool) -> Outcome {
         let mut out = Outcome::new();
+        let trained_case;
+        let c = if let Some((lines, requested)) = &c.trained {
+            out.label("trained_table");
+            let dir = work_dir();
+            let corpus = dir.join("c02-corpus.txt");
+            std::fs::write(&corpus, lines.join("\n") + "\n").expect("write corpus");
+            let out_file = dir.join("c02-trained.merges");
+            let r = train_bpe(&[&corpus], 320, 64 - (*requested).min(64), &out_file, None, None, 0, false);
+            install_panic_hook();
+            if let Err(e) = r {
+                out.fail(format!("train_bpe failed: {e}"));
+                return out;
+            }
+            let Ok(ops) = std::collections::HashMap::<Vec<u8>, u32>::load(&out_file) else {
+                out.fail("trained table does not load");
+                return out;
+            };
+            let mut entries: Vec<Option<Vec<u8>>> = vec![None; ops.len()];
+            for (b, id) in &ops {
+                if (*id as usize) < entries.len() {
+                    entries[*id as usize] = Some(b.clone());
+                }
+            }
+            if entries.iter().any(|e| e.is_none()) {
+                // ids are not 0..n-1: that is C19's subject
+                out.discard = Some("trained_table_ids_not_contiguous");
+                return out;
+            }
+            trained_case = Case { table: Table { entries: entries.into_iter().flatten().collect() }, trained: None, ..c.clone() };
+            if !trained_case.table.is_well_formed() {
+                // an ill-formed trained table is C19's subject as well
+                out.discard = Some("trained_table_not_well_formed");
+                return out;
+            }
+            &trained_case
+        } else {
+            c
+        };
         ensure!(out, c.table.is_well_formed(), "harness generated an ill-formed table");
         let path = c.table.save("c02.merges");
         let tok = match BPETokenizer::new(
